@@ -285,6 +285,12 @@ func (r *Run) Infra(format string, args ...any) {
 
 func (r *Run) finish() {
 	fp := r.Fingerprint()
+	if p := os.Getenv("VERIF_TRACE_ALL"); p != "" {
+		if f, err := os.OpenFile(p, os.O_APPEND|os.O_CREATE|os.O_WRONLY, 0o644); err == nil {
+			fmt.Fprintf(f, "RUN %s\n%s\n", fp, strings.Join(r.trace, "\n"))
+			f.Close()
+		}
+	}
 	global.mu.Lock()
 	global.Runs++
 	global.Steps += r.steps
@@ -356,6 +362,12 @@ func Check(t *testing.T, property string, prop func(r *Run)) {
 			if p := os.Getenv("VERIF_TRACE_OUT"); p != "" {
 				b, _ := json.MarshalIndent(r.fail, "", " ")
 				_ = os.WriteFile(p, b, 0o644)
+			}
+			if p := os.Getenv("VERIF_TRACE_ALL"); p != "" {
+				if f, err := os.OpenFile(p, os.O_APPEND|os.O_CREATE|os.O_WRONLY, 0o644); err == nil {
+					fmt.Fprintf(f, "RUN %s FAILED\n%s\n", r.Fingerprint(), strings.Join(r.trace, "\n"))
+					f.Close()
+				}
 			}
 			rt.Fatalf("VERIF-FAIL property=%s oracle=%s sig=%s fp=%s :: %s", property, r.fail.Oracle,
 				r.fail.Signature, r.fail.Fingerprint, oneLine(r.fail.Message))
